@@ -404,7 +404,7 @@ class Interpolation(object):
                     return self._y[i]  # We don't need to look further
             # Check if Newton coefficients table is not empty
             if len(self._table) == 0:
-                raise RuntimeError("Internal table is empty. Use set().")
+                raise ValueError("Internal table is empty. Use set().")
             # Check that x is within interpolation table values
             if x < self._x[0] or x > self._x[-1]:
                 raise ValueError("Input value outside of interpolation range.")
